@@ -6,6 +6,7 @@
 From Coq Require Import ZArith List Bool.
 From OV Require Import Base.CInt Emu.EmuCoreDefs Emu.DecodeDefs Emu.MarkDefs Proofs.EmitProofs Proofs.EmuCoreProofs
   Proofs.EmuCoreWf Proofs.MarkProofs Proofs.StackProofs Emu.StackSpecDefs.
+From OV Require Rt.RtMetaDefs Rt.MarkJsonDefs Proofs.MarkJsonProofs.
 Import ListNotations.
 Local Open Scope Z_scope.
 
@@ -138,3 +139,143 @@ Proof. vm_compute. reflexivity. Qed.
 Example C17_ex_types_ok :
   types_okb (mk_chans [M_OVNI; M_NOSV] ++ mark_chans [{| mt_type := 3; mt_title := [112]; mt_stack := true; mt_labels := [] |}]) = true.
 Proof. vm_compute. reflexivity. Qed.
+
+(* ====================================================================================================
+   The JSON leg (Rt/MarkJsonDefs.v on the parson model of Rt/RtMetaDefs.v): what ovni_mark_type / ovni_mark_label
+   write under "ovni.mark" of the thread's stream.json and what mark.c reads back. *)
+Module J.
+Import RtMetaDefs MarkJsonDefs MarkJsonProofs.
+
+(* B.1  every sequence of mark calls of a thread, started on a tree in which "ovni" is an object without "mark"
+   (the tree ovni_thread_init leaves: C17_thread_init_tree): the tree calls abort exactly when rt_call does, and
+   the emulator-side reader returns rt_defs - types in definition order, titles, stack flags, labels in order.
+   call_typed: the arguments are int32_t / int64_t; call_fits: titles and labels shorter than MAX_PCF_LABEL (512),
+   the emulator refuses longer ones (C17_malformed_mark_metadata_refused, bad_title_long / bad_label_long). *)
+Theorem C17_mark_metadata_roundtrip : forall fs0 cs,
+  base_tree fs0 -> forallb call_typed cs = true ->
+  match rt_calls rtm_init cs with
+  | Die => tree_calls fs0 cs = None
+  | Ret s => exists fs, tree_calls fs0 cs = Some fs /\
+             (forallb call_fits cs = true -> parse_mark_json (jobj fs) = Some (rt_defs s) /\ thread_defs_of_tree (jobj fs) = rt_defs s)
+  end.
+Proof. exact mark_metadata_roundtrip. Qed.
+Print Assumptions C17_mark_metadata_roundtrip.
+
+Theorem C17_thread_init_tree : forall c s th tid s' w obs, t_ready (tget (st_threads s) th) = false ->
+  step c s th (ThreadInit tid) = ODone s' w obs -> base_tree (t_meta (tget (st_threads s') th)).
+Proof. exact init_base. Qed.
+Print Assumptions C17_thread_init_tree.
+
+(* the calls of the metadata state machine (what the rtmeta correspondence runs) are these tree calls *)
+Theorem C17_mark_calls_in_state_machine : forall c s th t flags title, m_in_dom (MMarkType t flags title) = true ->
+  attr_gate (tget (st_threads s) th) = true ->
+  mstep c s th (MMarkType t flags title) =
+  match tree_call (t_meta (tget (st_threads s) th)) (MType t (stack_flag flags) title) with
+  | Some fs => ODone (tset s th (with_meta (tget (st_threads s) th) fs)) None None
+  | None => ODie
+  end.
+Proof. exact mstep_mark_type. Qed.
+Print Assumptions C17_mark_calls_in_state_machine.
+
+(* B.2  from the calls of every thread through the trees to the merged emulator types *)
+Theorem C17_compose_through_json : forall (ths : list (fields * list mcall)) (finals : list rtm),
+  Forall thread_ok ths ->
+  Forall2 (fun p s => rt_calls rtm_init (snd p) = Ret s) ths finals ->
+  exists trees, Forall2 (fun p fs => tree_calls (fst p) (snd p) = Some fs) ths trees /\
+    map thread_defs_of_tree (map jobj trees) = map rt_defs finals /\
+    emu_types_of_trees (map jobj trees) = merge_threads (map rt_defs finals).
+Proof. exact compose_through_json. Qed.
+Print Assumptions C17_compose_through_json.
+
+Theorem C17_compose_conflict_through_json : forall ths finals f1 s1 f2 s2 f3 d1 d2,
+  Forall thread_ok ths ->
+  Forall2 (fun p s => rt_calls rtm_init (snd p) = Ret s) ths finals ->
+  finals = f1 ++ s1 :: f2 ++ s2 :: f3 -> In d1 (rt_defs s1) -> In d2 (rt_defs s2) ->
+  md_type d1 = md_type d2 -> (md_title d1 <> md_title d2 \/ md_stack d1 <> md_stack d2) ->
+  exists trees, Forall2 (fun p fs => tree_calls (fst p) (snd p) = Some fs) ths trees /\
+    emu_types_of_trees (map jobj trees) = None /\ emu_pcf_of_trees (map jobj trees) = None.
+Proof. exact compose_conflict_through_json. Qed.
+Print Assumptions C17_compose_conflict_through_json.
+
+(* full statement wanted: "under type 100+t with the labels registered for the type" for ALL int64 label values.
+   Proved for label values that fit an int; refuted beyond (C17_labels_beyond_int_refuted). *)
+Theorem C17_compose_pcf_through_json_partial : forall ths finals ms,
+  Forall thread_ok ths ->
+  Forall2 (fun p s => rt_calls rtm_init (snd p) = Ret s) ths finals ->
+  Forall (fun s => Forall int_def (rt_defs s)) finals ->
+  merge_threads (map rt_defs finals) = Some ms ->
+  exists trees, Forall2 (fun p fs => tree_calls (fst p) (snd p) = Some fs) ths trees /\
+    emu_pcf_of_trees (map jobj trees) = Some (map (fun m => (100 + mt_type m, mt_title m, mt_labels m)) ms).
+Proof. exact compose_pcf_through_json. Qed.
+Print Assumptions C17_compose_pcf_through_json_partial.
+
+Theorem C17_labels_beyond_int_refuted :
+  (exists cs s fs, forallb call_typed cs = true /\ forallb call_fits cs = true /\ rt_calls rtm_init cs = Ret s /\
+     tree_calls ex_base cs = Some fs /\ parse_mark_json (jobj fs) = Some (rt_defs s) /\
+     emu_types_of_trees [jobj fs] <> None /\ emu_pcf_of_trees [jobj fs] = None) /\
+  (exists cs s fs secs, forallb call_typed cs = true /\ forallb call_fits cs = true /\ rt_calls rtm_init cs = Ret s /\
+     tree_calls ex_base cs = Some fs /\ In (61, 4294967301, 3) (rt_events s) /\
+     emu_pcf_of_trees [jobj fs] = Some secs /\ pcf_label secs 103 4294967301 = None /\ pcf_label secs 103 5 = Some sB).
+Proof. exact labels_beyond_int_refuted. Qed.
+Print Assumptions C17_labels_beyond_int_refuted.
+
+(* B.3  hand-made metadata: a member of "ovni.mark" that parse_mark refuses makes the emulation fail *)
+Theorem C17_malformed_mark_metadata_refused : forall ts fs ms kv,
+  In (jobj fs) ts -> pget fs [k_ovni; k_mark] = Some (jobj ms) -> In kv ms -> bad_member kv ->
+  parse_mark_json (jobj fs) = None /\ emu_types_of_trees ts = None /\ emu_pcf_of_trees ts = None.
+Proof. exact malformed_mark_metadata_refused. Qed.
+Print Assumptions C17_malformed_mark_metadata_refused.
+
+(* ... and what it does not refuse: "ovni.mark" that is not an object is "no marks" (json_object_dotget_object) *)
+Theorem C17_mark_not_object_ignored : forall fs v,
+  pget fs [k_ovni; k_mark] = Some v -> (forall ms, v <> jobj ms) -> parse_mark_json (jobj fs) = Some [].
+Proof. exact mark_not_object_ignored. Qed.
+Print Assumptions C17_mark_not_object_ignored.
+
+Theorem C17_conflicting_definitions_refused : forall l1 d1 l2 d2 l3 acc,
+  md_type d1 = md_type d2 -> (md_title d1 <> md_title d2 \/ md_stack d1 <> md_stack d2) ->
+  merge_defs acc (l1 ++ d1 :: l2 ++ d2 :: l3) = None.
+Proof. exact conflicting_definitions_refused. Qed.
+Print Assumptions C17_conflicting_definitions_refused.
+
+(* B.4  attributes stored under names outside "ovni" and "version" never change what the emulator reads, and the
+   round trip holds with such stores anywhere between the mark calls *)
+Theorem C17_user_attributes_keep_marks : forall fs k v fs', user_key k = true -> attr_set fs k v = Some fs' ->
+  parse_mark_json (jobj fs') = parse_mark_json (jobj fs) /\ (forall ds, Inv ds fs -> Inv ds fs').
+Proof. exact user_attr_keeps_marks. Qed.
+Print Assumptions C17_user_attributes_keep_marks.
+
+Theorem C17_mark_metadata_roundtrip_attrs : forall fs0 l fs,
+  base_tree fs0 -> forallb tcall_ok l = true -> tree_tcalls fs0 l = Some fs ->
+  exists s, rt_calls rtm_init (marks_of l) = Ret s /\ parse_mark_json (jobj fs) = Some (rt_defs s).
+Proof. exact mark_metadata_roundtrip_attrs. Qed.
+Print Assumptions C17_mark_metadata_roundtrip_attrs.
+
+(* non-vacuity: two threads, overlapping types and labels; conflicts; strtol's notion of a number; odd metadata *)
+Example C17_ex_json_two_threads :
+  rt_calls rtm_init ex_calls1 <> Die /\ rt_calls rtm_init ex_calls2 <> Die /\
+  forallb call_typed (ex_calls1 ++ ex_calls2) = true /\ forallb call_fits (ex_calls1 ++ ex_calls2) = true /\
+  pget (ex_tree ex_calls1) [k_ovni; k_mark] =
+    Some (jobj [([51], jobj [(k_title, jstr sP); (k_chan_type, jstr s_stack); (k_labels, jobj [([49], jstr sA); ([50], jstr sB)])]);
+                ([55], jobj [(k_title, jstr sQ); (k_chan_type, jstr s_single); (k_labels, jobj [([52; 48], jstr sC)])])]) /\
+  emu_types_of_trees [jobj (ex_tree ex_calls1); jobj (ex_tree ex_calls2)] =
+    Some [{| mt_type := 3; mt_title := sP; mt_stack := true; mt_labels := [(1, sA); (2, sB); (9, sC)] |};
+          {| mt_type := 7; mt_title := sQ; mt_stack := false; mt_labels := [(40, sC)] |};
+          {| mt_type := 1; mt_title := sQ; mt_stack := false; mt_labels := [] |}] /\
+  emu_pcf_of_trees [jobj (ex_tree ex_calls1); jobj (ex_tree ex_calls2)] =
+    Some [(103, sP, [(1, sA); (2, sB); (9, sC)]); (107, sQ, [(40, sC)]); (101, sQ, [])].
+Proof. exact ex_two_threads. Qed.
+Example C17_ex_json_base : base_tree ex_base.
+Proof. exact ex_base_ok. Qed.
+Example C17_ex_json_conflicts :
+  emu_types_of_trees [jobj (ex_tree ex_calls1); jobj (ex_tree [MType 3 false (Some sP)])] = None /\
+  emu_types_of_trees [jobj (ex_tree ex_calls1); jobj (ex_tree [MType 3 true (Some sQ)])] = None /\
+  emu_types_of_trees [jobj (ex_tree ex_calls1); jobj (ex_tree [MType 3 true (Some sP); MLabel 3 2 (Some sC)])] = None.
+Proof. exact ex_conflicts. Qed.
+Example C17_ex_json_odd_accepted :
+  emu_types_of_trees [jobj [(k_ovni, jobj [(k_mark, jobj ex_odd_mark)])]] =
+    Some [{| mt_type := 7; mt_title := []; mt_stack := false; mt_labels := [(0, sA); (-3, sB)] |}] /\
+  emu_types_of_trees [jobj [(k_ovni, jobj [(k_mark, jstr sA)])]] = Some [] /\
+  emu_types_of_trees [jobj [(k_ovni, jobj [(k_mark, jarr [])])]] = Some [].
+Proof. exact ex_odd_accepted. Qed.
+End J.
